@@ -3,6 +3,7 @@ package main
 import (
 	"context"
 	"fmt"
+	"strings"
 
 	"github.com/creachadair/jrpc2"
 	"verif/vs"
@@ -118,19 +119,28 @@ func c03Seq(tokens []string, conc int, extra string, b Bounds) *Scenario {
 // c03Gate: call A is gated until the handler of a request from a LATER message
 // has entered; if the server held later requests behind a running call the
 // execution ends in a deadlock.
-func c03Gate(later string, conc int, b Bounds) *Scenario {
-	tokens := []string{"g", later}
+func c03Gate(later string, conc int, b Bounds) *Scenario { return c03GateX("g", later, conc, b) }
+
+// first: the message holding the gated call ("g", or a batch such as "[gn]" / "[ng]": a call that shares
+// its message with a notification must not hold later requests back once the notification has returned).
+func c03GateX(first, later string, conc int, b Bounds) *Scenario {
+	tokens := []string{first, later}
 	return &Scenario{
-		Name:   fmt.Sprintf("gate{g %s} conc=%d", later, conc),
+		Name:   fmt.Sprintf("gate{%s %s} conc=%d", first, later, conc),
 		Params: map[string]any{"messages": tokens, "concurrency": conc},
 		Bounds: b,
 		New: func() *Instance {
 			h := &seqHarness{msgs: buildSeq(tokens), gates: NewGates()}
-			gateName := h.msgs[0].Members[0].Method
+			gateName := ""
+			for _, mem := range h.msgs[0].Members {
+				if mem.Kind == 'g' {
+					gateName = mem.Method
+				}
+			}
 			inner := h.handler()
 			hd := func(ctx context.Context, req *jrpc2.Request) (any, error) {
-				if req.Method() != gateName {
-					h.gates.Open(gateName) // a later request has entered
+				if req.Method() != gateName && !strings.HasPrefix(req.Method()[1:], "0_") {
+					h.gates.Open(gateName) // a request of a later message has entered
 				}
 				return inner(ctx, req)
 			}
@@ -196,6 +206,7 @@ func c03Scenarios(tier string) []*Scenario {
 			out = append(out, c03Seq(t, 2, xEOF, Bounds{1, -1, 0}))
 		}
 		out = append(out, c03Gate("c", 2, Bounds{2, -1, 0}), c03Gate("n", 2, Bounds{2, -1, 0}), c03Gate("[cn]", 3, Bounds{2, -1, 0}))
+		out = append(out, c03GateX("[gn]", "c", 3, Bounds{1, -1, 0}), c03GateX("[ng]", "c", 3, Bounds{1, -1, 0}), c03GateX("[gn]", "n", 3, Bounds{1, -1, 0}))
 		return out
 	}
 	for _, t := range core {
@@ -218,5 +229,10 @@ func c03Scenarios(tier string) []*Scenario {
 	out = append(out, c03Seq([]string{"n", "c"}, 2, xNone, Bounds{4, -1, 1}))
 	out = append(out, c03Seq([]string{"n"}, 2, xNone, Bounds{-1, -1, -1}), c03Seq([]string{"[nc]"}, 2, xNone, Bounds{-1, -1, -1}))
 	out = append(out, c03Gate("c", 2, Bounds{3, -1, 0}), c03Gate("n", 2, Bounds{3, -1, 0}), c03Gate("[cn]", 3, Bounds{3, -1, 0}), c03Gate("[cc]", 3, Bounds{3, -1, 0}))
+	for _, f := range []string{"[gn]", "[ng]", "[gnn]"} {
+		for _, l := range []string{"c", "n", "[cn]"} {
+			out = append(out, c03GateX(f, l, 4, Bounds{2, -1, 0}))
+		}
+	}
 	return out
 }
